@@ -93,7 +93,10 @@ impl Projector {
                 }
             }
         }
-        json!({"signer": {"id": "unknown", "alg": "none"}, "msg": msgs[0], "form": 0})
+        let u = json!({"signer": {"id": "unknown", "alg": "none"}, "msg": msgs[0], "form": 0});
+        // the projected value stands for exactly these bytes
+        self.c.sig_cache.insert(u.to_string(), sig.to_vec());
+        u
     }
 
     pub fn project(&mut self, bytes: &[u8]) -> Value {
